@@ -98,7 +98,7 @@ def conformance(seed, k):
 
     def one(t):
         index, case, files, s1, sn = t
-        inputs = set(gen.input_paths(case))
+        inputs = set(gen.input_paths(case)) | set(case.get("aux_files") or ())
         r1 = realrun.run_real(gen.build_argv(case, cores=1), files, src)
         rn = realrun.run_real(gen.build_argv(case, cores=case["knobs"]["workers"]), files, src)
         return index, realrun.compare(s1, r1, inputs), realrun.compare(sn, rn, inputs)
